@@ -624,6 +624,161 @@ Proof.
         now apply Permutation_app_tail.
 Qed.
 
+(* ---------- lyd_unlink_siblings: lyds_split ---------- *)
+Lemma remove_run_spec (xs : list A) : forall (t : tree) pre,
+  rb_inv cmp t -> inorder t = pre ++ xs -> NoDup (pre ++ xs) ->
+  exists t', remove_run cmp ideq t xs = Some t' /\ rb_inv cmp t' /\ inorder t' = pre.
+Proof.
+  induction xs as [|x xs IH]; intros t pre Hinv Hi Hnd; cbn [remove_run].
+  - exists t. rewrite app_nil_r in Hi. auto.
+  - destruct t as [|c l k r]; [cbn in Hi; destruct pre; discriminate|].
+    assert (Hin : In x (inorder (Node c l k r))) by (rewrite Hi; apply in_or_app; right; left; reflexivity).
+    destruct (L_find_complete _ x (proj1 Hinv) Hin) as (j & Ej). rewrite Ej.
+    pose proof (L_find_sound _ x j Ej) as Hj. rewrite Hi in Hj.
+    assert (j = length pre).
+    { apply (NoDup_nth_unique (pre ++ x :: xs) j (length pre) x Hnd Hj). apply nth_error_mid. }
+    subst j.
+    assert (Hsz : length pre < size (Node c l k r)).
+    { rewrite L_size_inorder, Hi, app_length. cbn [length]. lia. }
+    destruct (L_rb_remove_inv _ (length pre) Hinv Hsz) as (t1 & -> & Hinv1 & Hi1).
+    rewrite Hi, remove_nth_app in Hi1. apply (IH t1 pre Hinv1 Hi1). eapply NoDup_remove_1, Hnd.
+Qed.
+
+(* lyd_unlink_siblings at position i: the remaining list is exactly the first i instances, the split-off run exactly the
+   others (nothing lost), both satisfy the invariant: the tree of the remaining list walks exactly its siblings *)
+Theorem lyds_split_spec (s : lst A) i :
+  lyds_ok s -> i < length (sibs s) ->
+  exists s1 s2, lyds_split cmp ideq s i = Some (s1, s2) /\ lyds_ok s1 /\ lyds_ok s2 /\
+                sibs s1 = firstn i (sibs s) /\ sibs s2 = skipn i (sibs s).
+Proof.
+  intros (Hnd & Ht) Hi. unfold lyds_split. destruct i as [|i].
+  - eexists _, _. split; [reflexivity|]. split; [split; [constructor|exact I]|]. split; [split; assumption|]. auto.
+  - pose proof (firstn_skipn (S i) (sibs s)) as Hfs.
+    assert (Hnd1 : NoDup (firstn (S i) (sibs s))) by (apply (NoDup_app_l _ (skipn (S i) (sibs s))); now rewrite Hfs).
+    assert (Hnd2 : NoDup (skipn (S i) (sibs s))).
+    { apply (NoDup_app_l _ (firstn (S i) (sibs s))). apply (Permutation_NoDup (l := sibs s)); [|exact Hnd].
+      rewrite <- Hfs at 1. apply Permutation_app_comm. }
+    destruct (rbt s) as [[|c l k r]|].
+    + eexists _, _. split; [reflexivity|]. repeat split; try assumption; exact I.
+    + destruct Ht as (Hio & Hinv).
+      destruct (remove_run_spec (skipn (S i) (sibs s)) (Node c l k r) (firstn (S i) (sibs s)) Hinv) as (t' & -> & Hinv' & Hi').
+      { now rewrite Hfs. }
+      { now rewrite Hfs. }
+      eexists _, _. split; [reflexivity|]. split; [|split; [split; [exact Hnd2|exact I]|auto]].
+      split; [exact Hnd1|]. cbn [rbt sibs]. destruct t' as [|c' l' k' r']; [exact I|]. split; assumption.
+    + eexists _, _. split; [reflexivity|]. repeat split; try assumption; exact I.
+Qed.
+
+(* ---------- lyd_insert_child / lyd_insert_sibling of several nodes: lyds_merge ---------- *)
+Lemma insert_all_spec (xs : list A) : forall s : lst A,
+  lyds_ok s -> NoDup (sibs s ++ xs) ->
+  exists s', insert_all cmp ideq s xs = Some s' /\ lyds_ok s' /\
+             isort cmp (sibs s') = fold_left SI xs (isort cmp (sibs s)) /\
+             Permutation (sibs s ++ xs) (sibs s') /\ (~ no_tree s' -> sorted cmp (sibs s')).
+Proof.
+  induction xs as [|x xs IH]; intros s Hok Hnd; cbn [insert_all fold_left].
+  - exists s. split; [reflexivity|]. split; [exact Hok|]. split; [reflexivity|]. split; [now rewrite app_nil_r|].
+    now apply lyds_ok_sorted.
+  - assert (Hx : ~ In x (sibs s)).
+    { apply NoDup_remove_2 in Hnd. intro Hin. apply Hnd. apply in_or_app. now left. }
+    destruct (lyds_insert_spec s x false Hok Hx) as (s1 & -> & Hok1 & Hs1).
+    assert (Hp1 : Permutation (x :: sibs s) (sibs s1)) by (rewrite Hs1; apply insert_result_perm).
+    destruct (IH s1 Hok1) as (s' & E & Hok' & Hi & Hp & Hsrt).
+    { apply (Permutation_NoDup (l := sibs s ++ x :: xs)); [|exact Hnd].
+      etransitivity; [symmetry; apply Permutation_middle|]. change (x :: sibs s ++ xs) with ((x :: sibs s) ++ xs).
+      now apply Permutation_app_tail. }
+    exists s'. split; [exact E|]. split; [exact Hok'|]. split; [|split; [|exact Hsrt]].
+    + rewrite Hi, Hs1. now rewrite isort_insert_result.
+    + etransitivity; [|exact Hp]. etransitivity; [symmetry; apply Permutation_middle|].
+      change (x :: sibs s ++ xs) with ((x :: sibs s) ++ xs). now apply Permutation_app_tail.
+Qed.
+
+Lemma rb_insert_all_spec (xs : list A) : forall t : tree,
+  rb_inv cmp t -> exists t', rb_insert_all cmp t xs = Some t' /\ rb_inv cmp t' /\ inorder t' = fold_left SI xs (inorder t).
+Proof.
+  induction xs as [|x xs IH]; intros t Hinv; cbn [rb_insert_all fold_left]; [exists t; auto|].
+  destruct (L_rb_insert_inv t x Hinv) as (t1 & -> & Hinv1 & Hi1). rewrite <- Hi1. now apply IH.
+Qed.
+
+Lemma postorder_perm (t : tree) : Permutation (postorder t) (inorder t).
+Proof.
+  induction t as [|c l IHl k r IHr]; cbn [postorder inorder]; [reflexivity|].
+  apply Permutation_app; [exact IHl|]. etransitivity; [symmetry; apply Permutation_cons_append|]. now apply perm_skip.
+Qed.
+
+(* Spec: the sibling sequence after the merge, once sorted (it IS sorted in every case but the first, where the run is
+   moved as it is into a target without instances): the stable sorted merge of both runs - target instances first among
+   equal keys when the source instances are inserted (source order, or post-order of the source tree when both have
+   trees), source instances first when the target instances are inserted into the source tree *)
+Definition merge_result (s c : lst A) : list A :=
+  match sibs s with
+  | [] => isort cmp (sibs c)
+  | _ :: _ =>
+    match rbt c with
+    | Some (Node sc sl sk sr) =>
+      match rbt s with
+      | Some (Node _ _ _ _) => fold_left SI (postorder (Node sc sl sk sr)) (isort cmp (sibs s))
+      | _ => fold_left SI (sibs s) (sibs c)
+      end
+    | _ => fold_left SI (sibs c) (isort cmp (sibs s))
+    end
+  end.
+
+(* lyds_merge of a run c into a target s, every case (lyds_merge_nodes1 with / without creating the target's tree first,
+   lyds_merge_nodes2 front / among / back, lyds_merge_nodes3).  The only premise beyond the invariants: when the target
+   has no tree but the source has one, the target instances are sorted (lyds_merge_nodes2 relies on it; unsorted ones
+   come only from LYD_INSERT_NODE_LAST input that was declared ordered).  Then: no NULL dereference, tree = siblings,
+   nothing lost or doubled, the result is the stable sorted merge. *)
+Theorem lyds_merge_spec (s c : lst A) :
+  lyds_ok s -> lyds_ok c -> NoDup (sibs s ++ sibs c) -> (no_tree s -> ~ no_tree c -> sorted cmp (sibs s)) ->
+  exists s', lyds_merge cmp ideq s c = Some s' /\ lyds_ok s' /\
+             Permutation (sibs s ++ sibs c) (sibs s') /\
+             isort cmp (sibs s') = merge_result s c /\
+             (~ no_tree s' -> sorted cmp (sibs s')).
+Proof.
+  intros Hok Hokc Hnd Hsrt. unfold lyds_merge, merge_result. destruct (sibs s) as [|y ys] eqn:Es.
+  - exists c. split; [reflexivity|]. split; [exact Hokc|]. split; [reflexivity|]. split; [reflexivity|].
+    now apply lyds_ok_sorted.
+  - rewrite <- Es in *. clear y ys Es.
+    assert (Hins : forall xs, Permutation xs (sibs c) ->
+              exists s', insert_all cmp ideq s xs = Some s' /\ lyds_ok s' /\ Permutation (sibs s ++ sibs c) (sibs s') /\
+                         isort cmp (sibs s') = fold_left SI xs (isort cmp (sibs s)) /\
+                         (~ no_tree s' -> sorted cmp (sibs s'))).
+    { intros xs Hpx. destruct (insert_all_spec xs s Hok) as (s' & E & Hok' & Hi & Hp & Hst).
+      - apply (Permutation_NoDup (l := sibs s ++ sibs c)); [|exact Hnd]. apply Permutation_app_head. now symmetry.
+      - exists s'. split; [exact E|]. split; [exact Hok'|]. split; [|split; [exact Hi|exact Hst]].
+        etransitivity; [|exact Hp]. apply Permutation_app_head. now symmetry. }
+    destruct (rbt c) as [[|sc sl sk sr]|] eqn:Ec.
+    + apply Hins. reflexivity.
+    + destruct Hokc as (Hndc & Htc). rewrite Ec in Htc. destruct Htc as (Hic & Hinvc).
+      assert (Hcase2 : no_tree s ->
+        exists s', (if sortedb cmp (sibs s)
+                    then match rb_insert_all cmp (Node sc sl sk sr) (sibs s) with
+                         | Some t => Some (mkLst (inorder t) (Some t))
+                         | None => None
+                         end
+                    else None) = Some s' /\ lyds_ok s' /\ Permutation (sibs s ++ sibs c) (sibs s') /\
+                   isort cmp (sibs s') = fold_left SI (sibs s) (sibs c) /\ (~ no_tree s' -> sorted cmp (sibs s'))).
+      { intro Hn. assert (Hs : sorted cmp (sibs s)).
+        { apply Hsrt; [exact Hn|]. unfold no_tree. rewrite Ec. auto. }
+        assert (Hsb : sortedb cmp (sibs s) = true).
+        { clear - Hs. induction (sibs s) as [|x l IH]; [reflexivity|]. cbn [sortedb]. destruct l as [|z l]; [reflexivity|].
+          cbn [sorted] in Hs. destruct Hs as (Hx & Hs). inversion Hx as [|? ? Hxz _]; subst. unfold le in Hxz.
+          destruct (cmp x z); try congruence; now apply IH. }
+        rewrite Hsb. destruct (rb_insert_all_spec (sibs s) (Node sc sl sk sr) Hinvc) as (t & -> & Hinvt & Hit).
+        rewrite Hic in Hit. eexists. split; [reflexivity|]. cbn [sibs rbt].
+        assert (Hp : Permutation (sibs s ++ sibs c) (inorder t)) by (rewrite Hit; apply L_isort_gen_perm).
+        split; [|split; [exact Hp|split]].
+        - split; [exact (Permutation_NoDup Hp Hnd)|]. cbn [rbt sibs]. destruct t as [|? ? ? ?]; [exact I|]. split; [reflexivity|exact Hinvt].
+        - rewrite <- Hit. apply isort_sorted_id. exact (proj1 Hinvt).
+        - intros _. exact (proj1 Hinvt). }
+      destruct (rbt s) as [[|dc dl dk dr]|] eqn:Ers.
+      * apply Hcase2. unfold no_tree. rewrite Ers. exact I.
+      * apply Hins. rewrite <- Hic. apply postorder_perm.
+      * apply Hcase2. unfold no_tree. rewrite Ers. exact I.
+    + apply Hins. reflexivity.
+Qed.
+
 End SortedP.
 
 Arguments lyds_ok {A}.
@@ -631,3 +786,4 @@ Arguments insert_result {A}.
 Arguments lyds_run {A}.
 Arguments no_tree {A}.
 Arguments merge_news {A}.
+Arguments merge_result {A}.
